@@ -11,6 +11,7 @@ package broker
 import (
 	"github.com/emitter-io/emitter/internal/message"
 	"github.com/emitter-io/emitter/internal/provider/contract"
+	"github.com/emitter-io/emitter/internal/provider/usage"
 	"github.com/emitter-io/emitter/internal/security"
 	vs "github.com/emitter-io/emitter/internal/verifspec"
 )
@@ -94,3 +95,24 @@ func post_Conn_Close(c *Conn) bool {
 		vs.TraceCount("OnLastWill") == 1 && vs.TraceCount(".Close") == 1 && all < will && will < cl &&
 		(len(held) == 0 || vs.TraceFindNth("Service).Unsubscribe", len(held)-1) < will)
 }
+
+// ---------------------------------------------------------------------------------------------------------
+// Hostile input from the cluster port (property C09): a frame from a peer is decoded by third-party codecs into
+// messages with arbitrary field contents, and each one is handed to onPeerMessage on a goroutine that has no
+// recover above it. Safety contract: no panic for ANY message.
+
+//@ assume (*github.com/emitter-io/emitter/internal/message.Trie).Lookup iface pre=pre_Trie_Lookup_call post=post_Trie_Lookup_call
+func pre_Trie_Lookup_call(ssid message.Ssid) bool    { return len(ssid) >= 1 } // Lookup reads ssid[0] (its own contract: C09 in package message)
+func post_Trie_Lookup_call(res0 message.Subscribers) bool {
+	return res0 != nil && vs.ForallKey(res0, func(k uint32) bool { return !vs.Has(res0, k) || res0[k] != nil })
+}
+
+//@ assume (github.com/emitter-io/emitter/internal/provider/contract.Contract).Stats iface post=post_Contract_Stats
+func post_Contract_Stats(res0 usage.Meter) bool { return res0 != nil }
+
+//@ verify (*Service).onPeerMessage pre=pre_onPeerMessage props=C09
+//@ loop (*Service).onPeerMessage 0 unroll 2 bounded
+func pre_onPeerMessage(s *Service, m *message.Message) bool {
+	return s != nil && m != nil && s.subscriptions != nil && s.contracts != nil && s.measurer != nil
+}
+func inv_onPeerMessage(s *Service) bool { return s != nil }
